@@ -35,7 +35,7 @@ CONSTANTS Types,      \* complex type names handled by this run
           WordLenOf,  \* [type -> length bound of the words / perms families]
           MaxPerSym, MaxRare, PlanLen,
           PlanStrideOf, \* [type -> k]: the cover / wordrem families use every k-th follow edge (1 = all)
-          Ops         \* subset of {"add","fwd","remove","replace","tostring","tostring_ic","dotelem","dotnone"}
+          Ops         \* subset of {"add","fwd","remove","replace","replacep","tostring","tostring_ic","dotelem","dotnone"}
 
 NoFwd == 0 - 1
 
@@ -96,6 +96,12 @@ ReplaceOp(i, a) ==
   /\ hist' = Append(hist, [op |-> "replace", sym |-> a, fwd |-> NoFwd, idx |-> i, ic |-> FALSE,
                           exp |-> IF ExpectReplace(i, a) THEN "any" ELSE "reject"])
   /\ rare' = rare + 1
+\* the predicate form of replace_child (old given as a function that finds the child)
+ReplacePOp(i, a) ==
+  /\ ins' = IF ExpectReplace(i, a) THEN Subst(ins, i, a) ELSE ins
+  /\ hist' = Append(hist, [op |-> "replacep", sym |-> a, fwd |-> NoFwd, idx |-> i, ic |-> FALSE,
+                          exp |-> IF ExpectReplace(i, a) THEN "any" ELSE "reject"])
+  /\ rare' = rare + 1
 ToStr(ic) ==
   /\ UNCHANGED ins
   /\ hist' = Append(hist, [op |-> "tostring", sym |-> "", fwd |-> NoFwd, idx |-> 0, ic |-> ic,
@@ -120,6 +126,7 @@ Uniform ==
      \/ ("fwd" \in Ops /\ RareOK /\ \E a \in Multi : \E f \in 0..(LeafCount(a) - 1) : f <= 2 /\ AddOp(a, f))
      \/ ("remove" \in Ops /\ \E i \in DOMAIN ins : RemoveOp(i))
      \/ ("replace" \in Ops /\ RareOK /\ \E i \in DOMAIN ins : \E a \in RareSigma \cup {ins[i]} : ReplaceOp(i, a))
+     \/ ("replacep" \in Ops /\ RareOK /\ \E i \in DOMAIN ins : ReplacePOp(i, ins[i]))
      \/ ("tostring" \in Ops /\ ToStr(FALSE))
      \/ ("tostring_ic" \in Ops /\ RareOK /\ ToStr(TRUE))
      \/ ("dotelem" \in Ops /\ RareOK /\ \E a \in RareSigma : DotElem(a))
